@@ -41,6 +41,18 @@ func main() {
 	case "roles":
 		mustLoad(os.Args[2])
 		debugTypeRoles()
+	case "callers":
+		p := mustLoad(os.Args[2])
+		ix := BuildIndex(p)
+		f := p.Func(os.Args[3])
+		if f == nil {
+			fmt.Println("not found")
+			return
+		}
+		for _, cl := range ix.Callers[f] {
+			fmt.Println("  caller:", p.FuncName(cl))
+		}
+		fmt.Println("root:", ix.isRoot(f))
 	case "seams":
 		p := mustLoad(os.Args[2])
 		p.buildSeams()
